@@ -32,7 +32,7 @@ RULE = ("configurations: 16 flag combinations x velocity_bins x tracks 1..3 x pi
         "non-trivial = every configuration (distinct)")
 ASSUMPTIONS = ["models: SCoda.vocabSeq / encodeTok / decodeId / render, tied by comparing the entire dictionary"]
 RANGES = [(60, 64), (21, 108), (0, 127), (60, 60)]
-VALUESETS = [None, [6, 12, 24], [24, 12, 6, 16, 8, 4, 36, 18, 9, 48, 96]]
+VALUESETS = [None, [6, 12, 24], [24, 12, 6, 16, 8, 4, 36, 18, 9, 48, 96], [24, 48, 96, 144, 192], [12, 100, 7]]   # incl. values of three digits
 
 
 def _tk_of(inp):
